@@ -33,6 +33,7 @@ class Rec:
         self.draws = []       # wire draws
         self.sizes = []       # size argument of every choice call
         self.contract = []    # contract violations of the libraries (numpy / heapq)
+        self.misuse = []      # library answers that break their contract only because the caller broke a precondition
 
     def add(self, arr):
         a = np.asarray(arr)
@@ -103,7 +104,10 @@ class HeapRec:
         x = _heapq.heappop(h)
         i = [k for k, y in enumerate(self._shadow) if y is x][0]
         if any(y.size < x.size for y in self._shadow):
-            self._rec.contract.append("heappop did not return a smallest item")
+            # heapq itself is deterministic and correct: this can only happen when the CALLER broke the heap
+            # invariant (e.g. grew an item in place).  Not a library-contract failure of the harness: the run
+            # goes on, the model refuses the answer (Err 93) and the property predicate judges the output.
+            self._rec.misuse.append("heappop did not return a smallest item (heap invariant broken by the caller)")
         self._rec.draws.append([0, [i]])
         del self._shadow[i]
         return x
@@ -550,7 +554,7 @@ OBS_PLATES = ["obs", "", "generated_plate_0", "generated_plate_1", "p0", "initia
 def gen_screen(rng, style=None, all_observed=False, arity=None, n_treat=None):
     """screens with duplicate conditions, single-agent rows, 1-5 unobserved plates of any sizes,
     an observed part, several samples with few experiments each"""
-    style = style or rng.choice(["one_sample_plates", "one_sample_plates", "mixed", "single_plate"])
+    style = style or rng.choice(["one_sample_plates", "one_sample_plates", "mixed", "single_plate", "many_plates"])
     ctrl = rng.choice(["", "", "control"])
     arity = arity or rng.choice([1, 2, 2, 2, 2, 3])
     samples = rng.sample(SAMPLES, rng.randint(1, 4))
@@ -573,14 +577,19 @@ def gen_screen(rng, style=None, all_observed=False, arity=None, n_treat=None):
     n_pl = rng.choice([1, 1, 2, 3, 3, 4, 5, 6])
     if style == "single_plate":
         n_pl = 1
+    if style == "many_plates":
+        # one or two samples with many small single-sample plates (heap / pairing logic of the merge smoothers
+        # and odd plate counts over several top-bottom iterations only show with >= 4 plates of one sample)
+        n_pl = rng.randint(4, 11)
+        samples = samples[:rng.choice([1, 1, 2])]
     for j in range(n_pl):
         p = "p%d" % j if rng.random() < 0.9 else rng.choice(["", "é", "generated_plate_%d" % j])
         if any(r["p"] == p for r in rows):
             p = "q%d" % j
-        sz = rng.choice([1, 1, 2, 2, 3, 4, 5, 7])
+        sz = rng.choice([1, 1, 2, 2, 3, 4, 5, 7]) if style != "many_plates" else rng.choice([1, 1, 1, 2, 2, 3])
         ps = rng.choice(samples)
         for _ in range(sz):
-            s = ps if style == "one_sample_plates" else rng.choice(samples)
+            s = ps if style in ("one_sample_plates", "many_plates") else rng.choice(samples)
             rows.append(mk(s, p, False))
     if rng.random() < 0.15:      # duplicate a row exactly (duplicate condition and value)
         rows.append(dict(rng.choice(rows)))
@@ -600,6 +609,16 @@ def gen_screen(rng, style=None, all_observed=False, arity=None, n_treat=None):
     return dict(rows=rows, arity=arity, ctrl=ctrl, obs_given=True, mask_given=True, tmap=None, smap=None)
 
 
+def inject_all_control(rng, sd):
+    """make one unobserved row a vehicle-only well (every treatment slot the control): such a row is neither a
+    combination nor a single-agent experiment"""
+    un = [r for r in sd["rows"] if not r["m"]]
+    if un:
+        r = rng.choice(un)
+        r["t"] = [[sd["ctrl"], 0.0] if rng.random() < 0.5 else [t[0], rng.choice([0.0, -1.0])] for t in r["t"]]
+    return sd
+
+
 def smoother_params(rng, sd):
     """random parameters, biased to the boundaries of the screen at hand (plate sizes, sums of the two smallest plates)"""
     sizes = Counter(r["p"] for r in sd["rows"] if not r["m"])
@@ -609,7 +628,7 @@ def smoother_params(rng, sd):
         by_sample.setdefault(next(r["s"] for r in sd["rows"] if r["p"] == pl and not r["m"]), []).append(n)
     pair_sums = [sum(sorted(v)[:2]) for v in by_sample.values() if len(v) >= 2] or [2]
     return dict(min_size=rng.choice([0, 2, 4, 12] + [rng.choice(pair_sums) + d for d in (-1, 0, 0, 0, 1, 2)]),
-                n_iter=rng.choice([0, 1, 1, 2, 3, -1]),
+                n_iter=rng.choice([0, 1, 1, 2, 2, 3, 3, 4, -1]),
                 size=rng.choice([0, 2, 3, -1, 50] + [rng.choice(szs) + d for d in (-1, 0, 0, 0, 1)]),
                 min_plates=rng.choice([0, 1, 2, 2, 3]))
 
@@ -624,6 +643,13 @@ def features(desc, res):
         f.append("duplicate-condition")
     if any(any(t[1] <= 0 or t[0] == sd["ctrl"] for t in r["t"]) for r in rows):
         f.append("single-agent-row")
+    if any((not r["m"]) and all(t[1] <= 0 or t[0] == sd["ctrl"] for t in r["t"]) for r in rows):
+        f.append("vehicle-only-row")
+    per_sample = Counter()
+    for pl in {(r["s"], r["p"]) for r in rows if not r["m"]}:
+        per_sample[pl[0]] += 1
+    if per_sample and max(per_sample.values()) >= 4:
+        f.append("sample-with->=4-plates")
     if isinstance(res["impl"], ImplError):
         f.append("raises")
     if not any(not r["m"] for r in rows) and desc["kind"] in ("gen", "smooth", "holdout"):
